@@ -9,6 +9,12 @@ labelings (1..n, shuffled, sparse such as {7, 3, 12}) into real `Translated` / `
 `optimal_consumption_one_alternative`, `utility_expression_one_alternative` (through the engine,
 value and gradient), `forecast_comparison_one_draw`.
 
+Round 3: parameter regimes (negative / tiny marginal utilities at zero, tiny and huge budgets, a dominant good); the
+formula built by `utility_expression_one_alternative` is observed at the engine boundary and run by the proved
+engine model (lib/leanrun) against `Mdcev.symbolicU`; `validate_forecast`; `estimation_results` setter /
+`_update_parameters_in_expressions` (fresh object, used object, row objects used before and after) against a model
+built with the values and against `Mdcev.updateModel`; `info_gamma_parameters`.
+
 Oracle (from the statement, on the real outputs): x >= 0, sum x = B (1e-8), equal marginal
 utilities on the support and not larger at zero elsewhere, outside good consumed, objective >=
 brute force - tolerance, numeric utility = symbolic utility, derivative = derivative (engine
@@ -24,7 +30,7 @@ import math
 
 import numpy as np
 
-from lib import core
+from lib import core, leanrun
 from lib.core import Result, f2b, b2f, close
 
 READY = True
@@ -36,34 +42,54 @@ MANIFEST = dict(
     'the Boolean relation evaluated by the driver is its hypothesis list: C18.kkt_relation_exact); bisection keeps lo <= lambda* <= hi, halves the bracket and stops only by one of '
     'the two tolerances (C18.bisection_invariant, bisection_halves, bisection_termination); the outside good is always in the identified set and receives a positive consumption '
     '(C18.outside_good_always_chosen, outside_good_consumed); relabelling commutes with the forecast on any number type (C18.labels_irrelevant) and the forecast does not depend on '
-    'the order of index_to_key over R (C18.order_irrelevant). Tie: four variants x options x labelings (1..n, shuffled, sparse) x budgets x rows x Gumbel draws on the real code; '
-    'KKT relation evaluated by the Lean driver on every real forecast; pointwise comparison of U, U\', inverse, identification and forecast with the Float model; brute-force comparison; '
-    'numeric utility vs symbolic utility and its engine gradient; Mdcev.validation, Mdcev.forecast, forecast_comparison_one_draw under relabelling.',
+    'the order of index_to_key over R (C18.order_irrelevant). Round 3: the formula built by utility_expression_one_alternative (modelled as a tree with the code\'s branches) '
+    'evaluates to the numeric utility (C18.expr_eq_numeric); an ordinary good gets exactly 0 at its own marginal utility at zero and a non-negative amount below it '
+    '(C18.inverse_at_zero_marginal, consumption_nonneg); a successful forecast gives 0 outside the identified set and the closed form at the returned multiplier inside (C18.forecast_support); the identified choice set is never empty, also when every marginal utility at zero is negative '
+    '(C18.choice_set_nonempty, lower_bound_unbounded_iff); above lower_bound_dual_variable every closed form is in its domain (C18.lower_bound_sound); the multiplier handed over '
+    'when the budget criterion stops the bisection meets the budget within the tolerance (C18.returned_multiplier_meets_budget - repaired behaviour, finding F-C18-3; the negation '
+    'for the code\'s own rule on a witness: C18.midpoint_after_stop_misses_budget); after estimation every expression a forecast reads carries the estimated values '
+    '(C18.parameters_updated, updated_slot_value). Tie: four variants x options x labelings (1..n, shuffled, sparse) x budgets x rows x Gumbel draws x parameter regimes '
+    '(all marginal utilities at zero tiny / negative, tiny and huge budgets, one dominant good) on the real code; KKT relation evaluated by the Lean driver on every real forecast; '
+    'pointwise comparison of U, U\', inverse, identification and forecast with the Float model; brute-force comparison; numeric utility vs symbolic utility and its engine gradient; '
+    'the REAL signature text of the symbolic utility run by the proved engine model (leanrun) and compared with Mdcev.symbolicU and with the real engine; Mdcev.validation, '
+    'Mdcev.forecast, forecast_comparison_one_draw and validate_forecast under relabelling; parameters supplied through estimation_results (fresh object, object that has already '
+    'forecast, row objects used before and after) against a model built with the values and against Mdcev.updateModel; info_gamma_parameters.',
     design='DESIGN.md §5 C18',
-    technique='Lean 4 theorems over an executable model + relation evaluated on real forecasts + differential correspondence + relabelling stream',
+    technique='Lean 4 theorems over an executable model + relation evaluated on real forecasts + differential correspondence + relabelling stream + engine-model run of the built formula',
     note='Partial: SLSQP (brute force) is external, only "forecast >= brute force - tolerance" is required; concavity on the documented domain 0 < alpha < 1, gamma > 0, price > 0; '
-    'optimality is proved against competitors that give the outside good a positive amount; "numeric utility = symbolic utility" is validated through the engine only (no Lean theorem); '
-    'IEEE rounding not modelled (tolerances stated); the iteration order of a CPython set is read from the real object. Two defects of the code are listed as known findings '
-    '(F-C18-1 label compared with a position in GammaProfile; F-C18-2 forecast_comparison_one_draw mixes sorted-label and set order).',
+    'optimality is proved against competitors that give the outside good a positive amount; translated variant: statements about the inverse hold below the overflow guard '
+    'MAX_EXP_ARGUMENT; the lru_cache of the numeric pieces is not modelled (finding F-C18-4 is about it); the estimation side (transformed_utility, determinant entries, '
+    'loglikelihood, estimate_parameters) is outside the property; IEEE rounding not modelled (tolerances stated); the iteration order of a CPython set is read from the real object. '
+    'Known findings: F-C18-1, F-C18-2 (fixed in /repo); F-C18-3 (bisection returns the consumptions at the midpoint of the bracket it has just updated when the budget criterion '
+    'stops it) and F-C18-4 (values cached before estimation_results is set are kept) are listed with proposed fixes.',
 )
 TRUSTED = [
     'scipy SLSQP (reference optimiser, may be inexact)',
-    'the C++ engine evaluates the baseline utilities and the symbolic utility expression (value and gradient)',
+    'the C++ engine evaluates the baseline utilities (psi, mu) of an observation inside the forecasts; for the alternatives of the pieces stream the real signature text of the baseline / mu utility and of the symbolic utility is additionally run by the proved engine model (the values must be those of the abstract problem / of Mdcev.symbolicU)',
     'CPython iteration order of a set of ints (Mdcev.index_to_key) is read from the real object, not modelled',
     'numpy exp/log/power vs Lean Float (libm) agree to a few ulp',
+    'a stand-in for bioResults (subclass overriding get_beta_values) carries the estimated values; results.py is not an anchored file',
 ]
 ASSUMPTIONS = [
     'documented parameter domain: 0 < alpha < 1, gamma > 0, price > 0, scale > 0, budget > 0',
     'no ties among the marginal utilities at zero (probability zero for continuous draws) in the label-irrelevance theorem',
+    'in the low_marginal regime the "Inconsistent dual variables" messages of Mdcev.validation are not demanded to be absent (its fixed multiplier 10 puts the closed form at 1 - tiny: beyond double precision); utilities and derivatives are',
 ]
+EXTRA_MODULES = list(leanrun.MODULES)
 RULE = (
-    'one evaluation = one (problem, labeling, row, draw) forecast or one alternative of a pieces check; non-trivial = forecast with >= 3 goods where '
-    'at least one good is not consumed or the labeling differs from 1..n'
+    'one evaluation = one (problem, labeling, row, draw) forecast, one alternative of a pieces check, one scenario / estimation sequence on one object, one validate_forecast '
+    'call or one constructor case; non-trivial = forecast with >= 3 goods where at least one good is not consumed or the labeling differs from 1..n; sequences always'
 )
 
 VARIANTS = ['translated', 'gamma_profile', 'generalized', 'non_monotonic']
 F_C18_1_WHERE = 'GammaProfile.derivative_utility_one_alternative: label compared with outside_good_index (a position)'
 F_C18_2_WHERE = 'Mdcev.forecast_comparison_one_draw: consumption ordered by sorted label, epsilon/utilities by set-iteration position'
+
+F_C18_3_WHERE = ('Mdcev.forecast_bisection_one_draw: stops on the budget criterion but returns the consumptions at the midpoint of the '
+                 'bracket it has just updated')
+
+F_C18_4_WHERE = ('Mdcev.estimation_results (setter): the values cached by calculate_baseline_utility / calculate_mu_utility / '
+                 'optimal_consumption_one_alternative for the previous parameters are kept')
 
 TOL_BUDGET = 1e-8
 TOL_MARG = 1e-6
@@ -78,7 +104,7 @@ def gumbel(rng):
     return -math.log(-math.log(u))
 
 
-def gen_problem(rng, variant=None, n=None):
+def gen_problem(rng, variant=None, n=None, regime=None):
     variant = variant or rng.choice(VARIANTS)
     n = n or rng.choice([2, 3, 3, 4, 5, 6])
     outside = rng.random() < 0.6
@@ -98,6 +124,32 @@ def gen_problem(rng, variant=None, n=None):
     }
     n_draws = rng.randint(1, 2)
     prob['eps'] = [[[gumbel(rng) for _ in range(n)] for _ in range(n_draws)] for _ in prob['rows']]
+    apply_regime(rng, prob, regime)
+    return prob
+
+
+REGIMES = ['normal', 'normal', 'normal', 'low_marginal', 'tiny_budget', 'large_budget', 'one_dominant']
+
+
+def apply_regime(rng, prob, regime=None):
+    """parameter regimes that move the solution to the corners of the algorithm: marginal utilities at zero
+    that are all very small — for the non-monotonic variant all NEGATIVE (negative multiplier, lower bound
+    of the empty set) —, a budget so small that a single good is bought, a budget so large that every good
+    is (the 'full choice set' exit), one good that dominates all others"""
+    regime = regime or rng.choice(REGIMES)
+    n = prob['n']
+    prob['regime'] = regime
+    if regime == 'low_marginal':
+        prob['psi_c'] = [rng.randint(-24, -8) / 8 for _ in range(n)]
+        prob['psi_b'] = [rng.randint(-2, 2) / 8 for _ in range(n)]
+        prob['mu_c'] = [rng.randint(-56, -32) / 8 for _ in range(n)]
+    elif regime == 'tiny_budget':
+        prob['budget'] = rng.choice([1 / 64, 1 / 1024, 0.05])
+    elif regime == 'large_budget':
+        prob['budget'] = rng.choice([1000.0, 4096.0, 25000.0])
+    elif regime == 'one_dominant':
+        j = rng.randrange(n)
+        prob['psi_c'][j] += rng.choice([4.0, 6.0])
     return prob
 
 
@@ -106,14 +158,18 @@ def set_order(labels):
     return [k for k in set(dict.fromkeys(labels))]
 
 
-def labelings(rng, n):
-    """1..n, a shuffle of 1..n, and sparse labels whose set order differs from the sorted order"""
+def labelings(rng, n, outside=None):
+    """1..n, a shuffle of 1..n, and sparse labels whose set order differs from the sorted order; in a third of
+    the cases the label 0 (a falsy key) is carried by the outside good (by some good when there is none)"""
     seq = list(range(1, n + 1))
     sh = list(seq)
     while n > 1 and sh == seq:
         rng.shuffle(sh)
+    zero_at = (outside if outside is not None else rng.randrange(n)) if rng.random() < 0.34 else None
     for _ in range(50):
-        sp = rng.sample(range(0, 41), n)
+        sp = rng.sample(range(1 if zero_at is not None else 0, 41), n)
+        if zero_at is not None:
+            sp[zero_at] = 0
         if set_order(sp) != sorted(sp):
             break
     return {'seq': seq, 'shuffled': sh, 'sparse': sp}
@@ -132,7 +188,73 @@ def order_differs(labels):
     return set_order(labels) != sorted(labels)
 
 
+def early_stop(prob, labels, r, d, tol_dual, tol_budget):
+    """independent replay of the bisection (real identification, real closed forms): True when the loop stops on
+    the budget criterion while the midpoint of the updated bracket is another multiplier (finding F-C18-3)"""
+    with core.scratch():
+        model = build_model(prob, labels)
+        db = row_db(prob, r)
+        e = eps_vector(model, labels, prob['eps'][r][d])
+        chosen, lo, hi = model.identification_chosen_alternatives(db, prob['budget'], e.copy())
+        budget = prob['budget']
+        if lo > hi:
+            return False
+        for _ in range(5000):
+            mid = (lo + hi) / 2
+            oc = model.optimal_consumption(chosen, mid, e, db)
+            if any(v < 0 for v in oc.values()):
+                return False
+            tot = sum(oc.values())
+            if tot < budget:
+                hi = mid
+            elif tot > budget:
+                lo = mid
+            if hi - lo <= tol_dual:
+                return False
+            if abs(tot - budget) <= tol_budget:
+                return (lo + hi) / 2 != mid
+    return False
+
+
+def f_c18_3_shape(sub):
+    """the case contains a (row, draw) on which the bisection stops on the budget criterion with a bracket whose
+    midpoint is another multiplier (at the tolerances used by the harness, 1e-13, or by the comparison tool, 1e-10)"""
+    try:
+        if not isinstance(sub, dict) or 'labels' not in sub:
+            return False
+        prob = sub['problem']
+        probs = [prob] + ([{**prob, 'rows': scenario_rows(prob)}] if sub.get('scenario') else [])
+        labelss = [sub['labels']] + ([sub['other_labels']] if 'other_labels' in sub else [])
+        for p in probs:
+            rows = [sub['row']] if 'row' in sub and not sub.get('scenario') else range(len(p['rows']))
+            for r in rows:
+                draws = [sub['draw']] if 'draw' in sub else range(len(p['eps'][r]))
+                for d in draws:
+                    for labels in labelss:
+                        if early_stop(p, labels, r, d, 1e-13, 1e-13) or early_stop(p, labels, r, d, 1e-10, 1e-10):
+                            return True
+    except Exception:  # noqa: BLE001
+        return False
+    return False
+
+
+def make_where(known1, sub):
+    """call-site string of a report about `sub`: a listed finding when the case has its shape (decided lazily)"""
+    cache = {}
+
+    def W(default):
+        if known1:
+            return F_C18_1_WHERE
+        if 'early' not in cache:
+            cache['early'] = f_c18_3_shape(sub)
+        return F_C18_3_WHERE if cache['early'] else default
+
+    return W
+
+
 MATCHERS = {
+    'budget_criterion_stops_wide_bracket': f_c18_3_shape,
+    'same_row_object_before_and_after_estimation': lambda sub: isinstance(sub, dict) and bool(sub.get('estimated')) and sub.get('used_before') == 'same_row',
     'label_equals_outside_position': lambda sub: isinstance(sub, dict) and 'labels' in sub
     and f_c18_1_shape(sub['problem']['variant'], sub['labels'], sub['labels'][sub['problem']['outside']] if sub['problem']['outside'] is not None else None),
     'set_order_differs': lambda sub: isinstance(sub, dict) and 'labels' in sub and order_differs(sub['labels']),
@@ -240,27 +362,49 @@ def safe(fn, *a, **k):
         return None, f'{type(ex).__name__}: {ex}'
 
 
+def validation_of(model, row, prob):
+    """Mdcev.validation as (messages, error).  In the low_marginal regime the tool's test of the inverse (fixed
+    multiplier 10, np.isclose) is beyond double precision - the closed form is 1 - (tiny number) there -, so its
+    'Inconsistent dual variables' messages are not demanded to be absent (the inverse is checked by check_pieces at
+    multipliers in the range of the problem); utilities and derivatives are"""
+    val, verr = safe(model.validation, row)
+    if val is not None and prob.get('regime') == 'low_marginal':
+        val = [m for m in val if not str(m).startswith('Inconsistent dual variables')]
+    return val, verr
+
+
 class LogCatch(logging.Handler):
     def __init__(self):
-        super().__init__(level=logging.WARNING)
-        self.msgs = []
+        super().__init__(level=logging.INFO)
+        self.msgs = []      # warnings
+        self.solved = []    # the 'Analytical: ...' lines: which problems the tool solved, in order
 
     def emit(self, record):
-        self.msgs.append(record.getMessage())
+        if record.levelno >= logging.WARNING:
+            self.msgs.append(record.getMessage())
+        elif record.getMessage().startswith('Analytical:'):
+            self.solved.append(record.getMessage())
 
 
-def comparison_warnings(model, db, budget, e):
-    """run forecast_comparison_one_draw with the library's warnings captured"""
+LAST_SOLVED = []  # 'Analytical:' lines of the last comparison_warnings call
+
+
+def comparison_warnings(model, db, budget, e, entry='forecast_comparison_one_draw'):
+    """run forecast_comparison_one_draw (or validate_forecast: `db` the whole database, `e` the list of draws per
+    observation) with the library's warnings captured"""
     lg = logging.getLogger('biogeme.mdcev.mdcev')
     h = LogCatch()
     prev = logging.root.manager.disable
     logging.disable(logging.NOTSET)
     old_level = lg.level
-    lg.setLevel(logging.WARNING)
+    lg.setLevel(logging.INFO)
     lg.addHandler(h)
     err = None
     try:
-        model.forecast_comparison_one_draw(one_row_of_database=db, total_budget=budget, epsilon=e)
+        if entry == 'validate_forecast':
+            model.validate_forecast(database=db, total_budget=budget, epsilons=e, tolerance_dual=1e-10, tolerance_budget=1e-10)
+        else:
+            model.forecast_comparison_one_draw(one_row_of_database=db, total_budget=budget, epsilon=e)
     except Exception as ex:  # noqa: BLE001
         err = f'{type(ex).__name__}: {ex}'
     finally:
@@ -268,6 +412,7 @@ def comparison_warnings(model, db, budget, e):
         lg.setLevel(old_level)
         logging.disable(prev)
     kinds = sorted({m.split('[')[0].split(':')[0].strip()[:40] for m in h.msgs if not m.startswith('Solution with')})
+    LAST_SOLVED[:] = h.solved
     return kinds, err
 
 
@@ -290,8 +435,10 @@ def expected_comparison(model, db, budget, e):
         kinds.add('Different optimal choice sets')
     xb = np.array([bf[k] for k in model.index_to_key])
     xa = np.array([an[k] for k in model.index_to_key])
-    ob = model.sum_of_utilities(consumptions=xb, epsilon=e.copy(), data_row=db)
-    oa = model.sum_of_utilities(consumptions=xa, epsilon=e.copy(), data_row=db)
+    ob, _ = safe(model.sum_of_utilities, consumptions=xb, epsilon=e.copy(), data_row=db)
+    oa, _ = safe(model.sum_of_utilities, consumptions=xa, epsilon=e.copy(), data_row=db)
+    if ob is None or oa is None:
+        return None  # the objective cannot be evaluated (reported by the forecast oracle): nothing is demanded of the tool
     # borderline comparisons (within a factor 10 of np.isclose's thresholds) are not decided
     def far(a, b):
         return abs(a - b) > 10 * (1e-8 + 1e-5 * abs(b))
@@ -317,7 +464,6 @@ def expected_comparison(model, db, budget, e):
 def check_problem(ctx, res, prob, labs, brute=True, pieces=True, comparison=False):
     """one abstract problem under several labelings"""
     results = {}  # (labeling, r, d) -> consumption by abstract alternative
-    comp = {}
     for lname, labels in labs.items():
         og_label = None if prob['outside'] is None else labels[prob['outside']]
         known1 = f_c18_1_shape(prob['variant'], labels, og_label)
@@ -329,6 +475,8 @@ def check_problem(ctx, res, prob, labs, brute=True, pieces=True, comparison=Fals
                 continue
             order = list(model.index_to_key)
             pos = {k: j for j, k in enumerate(labels)}
+            comp = {}  # (r, d) -> expected kinds of warnings of the comparison tool (None: borderline)
+            solved = {}  # (r, d) -> the solution lines logged by forecast_comparison_one_draw
             # label <-> position maps
             res.tally('maps')
             maps_ok = (sorted(order) == sorted(labels) and len(order) == prob['n'] == model.number_of_alternatives
@@ -346,13 +494,16 @@ def check_problem(ctx, res, prob, labs, brute=True, pieces=True, comparison=Fals
                 db = row_db(prob, r)
                 for d, eps_abs in enumerate(prob['eps'][r]):
                     sub = {'problem': prob, 'labels': labels, 'labeling': lname, 'row': r, 'draw': d}
+                    W = make_where(known1, sub)
                     e = eps_vector(model, labels, eps_abs)
                     fc, err = safe(model.forecast_bisection_one_draw, db, prob['budget'], e.copy())
                     res.tally(f'{prob["variant"]}')
                     res.tally(f'labeling={lname}')
+                    if og_label == 0:
+                        res.tally('outside_good_has_label_0')
                     if fc is None:
                         res.count({'fc_raises': sub})
-                        res.violate(f'forecast_bisection_one_draw raises on a valid model: {err}', sub, err, 'a forecast', where=W1('Mdcev.forecast_bisection_one_draw'))
+                        res.violate(f'forecast_bisection_one_draw raises on a valid model: {err}', sub, err, 'a forecast', where=W('Mdcev.forecast_bisection_one_draw'))
                         continue
                     x_by_label = {int(k): float(v) for k, v in fc.items()}
                     xs_abs = [x_by_label.get(labels[j], float('nan')) for j in range(prob['n'])]
@@ -362,7 +513,7 @@ def check_problem(ctx, res, prob, labs, brute=True, pieces=True, comparison=Fals
                     res.tally('some_good_not_consumed' if n_zero else 'all_consumed')
                     why, lam = oracle_forecast(model, db, prob, labels, e, x_by_label)
                     if why:
-                        res.violate(f'forecast: {why}', sub, x_by_label, 'KKT point of the consumer problem', where=W1('Mdcev.forecast_bisection_one_draw'))
+                        res.violate(f'forecast: {why}', sub, x_by_label, 'KKT point of the consumer problem', where=W('Mdcev.forecast_bisection_one_draw'))
                     # brute force: the forecast must be at least as good
                     bf = None
                     if brute:
@@ -377,7 +528,7 @@ def check_problem(ctx, res, prob, labs, brute=True, pieces=True, comparison=Fals
                                 res.tally('brute_force_compared')
                                 if not (oa >= ob - slack):
                                     res.violate('forecast is worse than the brute-force solution', sub, {'objective': oa, 'x': x_by_label},
-                                                {'objective_brute': ob, 'x_brute': {k: float(v) for k, v in bf.items()}}, where=W1('Mdcev.forecast_bisection_one_draw'))
+                                                {'objective_brute': ob, 'x_brute': {k: float(v) for k, v in bf.items()}}, where=W('Mdcev.forecast_bisection_one_draw'))
                     # identification
                     idt, ierr = safe(model.identification_chosen_alternatives, db, prob['budget'], e.copy())
                     alts = lean_alts(prob, labels, order, r, eps_abs)
@@ -392,44 +543,48 @@ def check_problem(ctx, res, prob, labs, brute=True, pieces=True, comparison=Fals
 
                     bf_gap = 0.0 if bf is None else abs(sum(float(bf[k]) for k in order) - prob['budget'])
 
-                    def cb(ans, sub=sub, x_by_label=x_by_label, order=order, idt=idt, why=why, W1=W1, bf_gap=bf_gap):
+                    def cb(ans, sub=sub, x_by_label=x_by_label, order=order, idt=idt, why=why, W=W, bf_gap=bf_gap):
                         f = ans[0]
                         if 'err' in f:
-                            res.diverge('Mdcev.forecast (model) fails where the code succeeds', sub, f, x_by_label, where=W1(''))
+                            res.diverge('Mdcev.forecast (model) fails where the code succeeds', sub, f, x_by_label, where=W(''))
                         else:
                             mx = {k: b2f(b) for k, b in f['x']}
                             if any(not close(mx[k], x_by_label[k], 1e-7, 1e-9) for k in order):
-                                res.diverge('forecast_bisection_one_draw vs Mdcev.forecast', sub, mx, x_by_label, where=W1(''))
+                                res.diverge('forecast_bisection_one_draw vs Mdcev.forecast', sub, mx, x_by_label, where=W(''))
                         if idt is not None:
                             mi = ans[1]
                             got = (sorted(int(k) for k in idt[0]), float(idt[1]), float(idt[2]))
                             if sorted(mi['chosen']) != got[0] or not close(b2f(mi['lo']), got[1], 1e-9, 1e-12) or not close(b2f(mi['hi']), got[2], 1e-9, 1e-12):
                                 res.diverge('identification_chosen_alternatives vs Mdcev.identifyChosen', sub,
-                                            [sorted(mi['chosen']), b2f(mi['lo']), b2f(mi['hi'])], list(got), where=W1(''))
+                                            [sorted(mi['chosen']), b2f(mi['lo']), b2f(mi['hi'])], list(got), where=W(''))
                         k = ans[2]
                         if bool(k.get('kkt')) != (why is None):
                             res.diverge('Lean relation kktB on the real forecast vs the Python oracle', sub,
-                                        {'kkt': k.get('kkt'), 'marginal': [b2f(b) for b in k.get('marginal', [])]}, why, where=W1(''))
+                                        {'kkt': k.get('kkt'), 'marginal': [b2f(b) for b in k.get('marginal', [])]}, why, where=W(''))
                         if k.get('objective_brute') is not None:
                             oa, ob = b2f(k['objective']), b2f(k['objective_brute'])
                             lam_m = b2f(k['lam']) if k.get('lam') is not None else 0.0
                             slack = 1e-6 * max(1.0, abs(ob)) + 2 * abs(lam_m if math.isfinite(lam_m) else 0.0) * bf_gap
                             if math.isfinite(ob) and not (oa >= ob - slack):
-                                res.diverge('model objective: forecast worse than brute force', sub, oa, ob, where=W1(''))
+                                res.diverge('model objective: forecast worse than brute force', sub, oa, ob, where=W(''))
 
                     ctx.batch.add_many(reqs, cb)
-                    if comparison and lname in ('seq', 'sparse'):
+                    if comparison and lname in ('seq', 'sparse', 'given'):
                         kinds, cerr = comparison_warnings(model, db, prob['budget'], e.copy())
+                        solved[(r, d)] = list(LAST_SOLVED)
                         want = expected_comparison(model, db, prob['budget'], e)
+                        comp[(r, d)] = want
                         res.tally('comparison_checked' if want is not None else 'comparison_borderline')
                         if want is not None and (cerr is not None or kinds != want):
                             res.violate('forecast_comparison_one_draw does not report what its two solutions imply',
                                         sub, {'warnings': kinds, 'error': cerr}, {'warnings': want, 'error': None},
-                                        where=F_C18_2_WHERE if order_differs(labels) else 'Mdcev.forecast_comparison_one_draw')
+                                        where=F_C18_2_WHERE if order_differs(labels) else W('Mdcev.forecast_comparison_one_draw'))
                 if pieces:
-                    check_pieces(ctx, res, prob, labels, lname, model, db, r, W1)
+                    check_pieces(ctx, res, prob, labels, lname, model, db, r, W1, sym_store=getattr(ctx, 'sym_store', None))
+            if comparison and len(comp) == sum(len(x) for x in prob['eps']) and all(w is not None for w in comp.values()):
+                check_validate_forecast(res, prob, labels, lname, model, comp, solved)
             if pieces:
-                val, verr = safe(model.validation, row_db(prob, 0))
+                val, verr = validation_of(model, row_db(prob, 0), prob)
                 res.tally('validation')
                 if val is None or val:
                     res.violate(f'Mdcev.validation reports inconsistencies on a valid model: {val if val is not None else verr}',
@@ -450,9 +605,34 @@ def check_problem(ctx, res, prob, labs, brute=True, pieces=True, comparison=Fals
                 og0 = None if prob['outside'] is None else labs[ref_name][prob['outside']]
                 known = f_c18_1_shape(prob['variant'], labs[ln], og1) or f_c18_1_shape(prob['variant'], labs[ref_name], og0)
                 bad = ln if f_c18_1_shape(prob['variant'], labs[ln], og1) else ref_name
-                res.violate('the forecast depends on the labels of the alternatives',
-                            {'problem': prob, 'labels': labs[bad if known else ln], 'labeling': ln, 'other_labels': labs[ref_name], 'row': r, 'draw': d},
-                            {ln: b}, {ref_name: a}, where=F_C18_1_WHERE if known else 'Mdcev (labels)')
+                rsub = {'problem': prob, 'labels': labs[bad if known else ln], 'labeling': ln, 'other_labels': labs[ref_name], 'row': r, 'draw': d}
+                res.violate('the forecast depends on the labels of the alternatives', rsub,
+                            {ln: b}, {ref_name: a}, where=F_C18_1_WHERE if known else make_where(False, rsub)('Mdcev (labels)'))
+
+
+def check_validate_forecast(res, prob, labels, lname, model, comp, solved):
+    """secondary entry point of the comparison tool: validate_forecast(database, budget, epsilons) splits the
+    database into rows and runs forecast_comparison_one_draw on every (row, draw): it must report exactly
+    what the (row, draw) pairs imply, each with ITS row and ITS draw"""
+    import pandas as pd
+    from biogeme.database import Database
+
+    db = Database('all_rows', pd.DataFrame(prob['rows']))
+    epsilons = [np.array([eps_vector(model, labels, ea) for ea in prob['eps'][r]]) for r in range(len(prob['rows']))]
+    want = sorted({k for w in comp.values() for k in w})
+    kinds, err = comparison_warnings(model, db, prob['budget'], epsilons, entry='validate_forecast')
+    res.tally('validate_forecast')
+    res.count({'validate_forecast': labels, 'v': prob['variant'], 'rows': prob['rows']}, nontrivial=len(prob['rows']) > 1)
+    # which problems it solved: the logged solutions must be those of forecast_comparison_one_draw on each (row, draw), in order
+    want_solved = [m for key in sorted(solved) for m in solved[key]]
+    if err is None and LAST_SOLVED != want_solved:
+        res.violate('validate_forecast does not solve the problems of its (row, draw) pairs (logged solutions differ from forecast_comparison_one_draw on each pair)',
+                    {'problem': prob, 'labels': labels, 'labeling': lname, 'validate_forecast': True}, list(LAST_SOLVED), want_solved,
+                    where=F_C18_2_WHERE if order_differs(labels) else 'Mdcev.validate_forecast')
+    if err is not None or kinds != want:
+        res.violate('validate_forecast does not report what its (row, draw) comparisons imply',
+                    {'problem': prob, 'labels': labels, 'labeling': lname, 'validate_forecast': True}, {'warnings': kinds, 'error': err},
+                    {'warnings': want, 'error': None}, where=F_C18_2_WHERE if order_differs(labels) else 'Mdcev.validate_forecast')
 
 
 def check_forecast_table(res, prob, labels, lname, model, results, W1):
@@ -483,7 +663,10 @@ def check_forecast_table(res, prob, labels, lname, model, results, W1):
                 res.violate('Mdcev.forecast differs from forecast_bisection_one_draw on the same row and draw', {**sub, 'row': r, 'draw': d}, got, want, where=W1('Mdcev.forecast'))
 
 
-def check_pieces(ctx, res, prob, labels, lname, model, db, r, W1):
+SYM_MAX = 450
+
+
+def check_pieces(ctx, res, prob, labels, lname, model, db, r, W1, sym_store=None):
     """U, U', inverse on each alternative: numeric = symbolic (engine), derivative = derivative,
     inverse inverts; and the Float model pointwise"""
     from biogeme.expressions import Beta, Numeric
@@ -553,6 +736,28 @@ def check_pieces(ctx, res, prob, labels, lname, model, db, r, W1):
                     res.diverge(f'{name}: model vs code', sub, m, real, where=W1(''))
 
         ctx.batch.add(req, cb)
+        # the FORMULA the code built (utility_expression_one_alternative), as handed to the engine, is run by the
+        # proved engine model and compared with the Lean model of that formula (`symbolicU`, theorem
+        # C18.expr_eq_numeric) and with the real engine
+        if sym_store is not None and len(sym_store) < SYM_MAX:
+            x0 = xs[(j + r) % len(xs)]
+            ex, _ = safe(model.utility_expression_one_alternative, the_id=k, the_consumption=Beta('consumption', x0, None, None, 0), unscaled_epsilon=Numeric(eps))
+            if ex is not None:
+                o = leanrun.observe(ex, db)
+                holder = {'o': o, 'sub': {**sub, 'x': x0}, 'where': W1('utility_expression_one_alternative'), 'sym': None}
+                sym_store.append(holder)
+                # the baseline utility (and the mu utility) of the alternative on this row: the real formula run by the
+                # engine model must give the value the abstract problem defines (exact dyadic arithmetic)
+                row = prob['rows'][r]
+                ob = leanrun.observe(model.baseline_utilities[k], db)
+                sym_store.append({'o': ob, 'sub': {**sub, 'piece': 'baseline_utility'}, 'where': W1('calculate_baseline_utility'),
+                                  'sym': prob['psi_c'][j] + prob['psi_b'][j] * row['x'], 'what': 'baseline utility'})
+                if prob['variant'] == 'non_monotonic':
+                    om = leanrun.observe(model.mu_utilities[k], db)
+                    sym_store.append({'o': om, 'sub': {**sub, 'piece': 'mu_utility'}, 'where': W1('calculate_mu_utility'),
+                                      'sym': prob['mu_c'][j] + 0.125 * row['z'], 'what': 'mu utility'})
+                ctx.batch.add({'op': 'symbolic', 'variant': prob['variant'], 'scale': jscale(prob), 'alt': a, 'xs': [f2b(x0)]},
+                              lambda ans, holder=holder: holder.update(sym=b2f(ans['sym'][0]), U=b2f(ans['U'][0])))
 
 
 def symbolic_marginal(model, k, x, eps, db):
@@ -603,6 +808,7 @@ def check_scenarios(ctx, res, prob, labels, lname):
     rows2 = scenario_rows(prob)
     prob2 = {**prob, 'rows': rows2}
     sub = {'problem': prob, 'labels': labels, 'labeling': lname, 'scenario': True}
+    WS = make_where(False, sub)
     og_label = None if prob['outside'] is None else labels[prob['outside']]
     with core.scratch():
         model, err = safe(build_model, prob, labels)
@@ -629,7 +835,7 @@ def check_scenarios(ctx, res, prob, labels, lname):
             ref_db = Database('reference', pd.DataFrame(rows2))
             ref, e3 = safe(fresh.forecast, ref_db, prob['budget'], eps, False, 1e-13, 1e-13)
             if (out2 is None) != (ref is None):
-                res.violate(f'second scenario on a re-used model: {e2}; freshly built model: {e3}', {**sub, 'mode': mode}, e2, e3, where='Mdcev.forecast (re-used model)')
+                res.violate(f'second scenario on a re-used model: {e2}; freshly built model: {e3}', {**sub, 'mode': mode}, e2, e3, where=WS('Mdcev.forecast (re-used model)'))
                 continue
             if out2 is None:
                 continue
@@ -639,23 +845,236 @@ def check_scenarios(ctx, res, prob, labels, lname):
                 if any(not close(u, v, 1e-9, 1e-12) for ra, rb in zip(a, b) for u, v in zip(ra, rb)):
                     res.violate('forecast of a changed scenario with a re-used model object differs from a freshly built model',
                                 {**sub, 'mode': mode, 'row': r}, {k: v for k, v in zip(sorted(labels), a)}, {k: v for k, v in zip(sorted(labels), b)},
-                                where='Mdcev.forecast (re-used model)')
+                                where=WS('Mdcev.forecast (re-used model)'))
                 # KKT from the symbolic utility on the real new row (first draw)
                 row2 = Database(f'row_{r}', pd.DataFrame([rows2[r]]))
                 x_by_label = {k: float(df2[k].iloc[0]) for k in labels}
                 why, oerr = safe(oracle_symbolic, model, row2, prob2, labels, eps[r][0], x_by_label)
                 if oerr is None and why:
                     res.violate(f'forecast of the changed scenario (re-used model): {why}', {**sub, 'mode': mode, 'row': r}, x_by_label,
-                                'KKT point of the new observation (symbolic marginal utilities)', where='Mdcev.forecast (re-used model)')
+                                'KKT point of the new observation (symbolic marginal utilities)', where=WS('Mdcev.forecast (re-used model)'))
                 # pieces on the new row with the re-used model: numeric = symbolic
-                val, verr = safe(model.validation, row2)
+                val, verr = validation_of(model, row2, prob)
                 if val is None or val:
                     res.violate(f'Mdcev.validation on the changed scenario (re-used model): {val if val is not None else verr}',
                                 {**sub, 'mode': mode, 'row': r}, val if val is not None else verr, [], where='Mdcev.validation (re-used model)')
                 one, oerr = safe(model.forecast_bisection_one_draw, row2, prob['budget'], eps[r][0].copy(), 1e-13, 1e-13)
                 if one is not None and any(not close(float(one[k]), x_by_label[k], 1e-9, 1e-12) for k in labels):
                     res.violate('forecast_bisection_one_draw on the new row differs from Mdcev.forecast of the same row (re-used model)',
-                                {**sub, 'mode': mode, 'row': r}, {int(k): float(v) for k, v in one.items()}, x_by_label, where='Mdcev.forecast (re-used model)')
+                                {**sub, 'mode': mode, 'row': r}, {int(k): float(v) for k, v in one.items()}, x_by_label, where=WS('Mdcev.forecast (re-used model)'))
+
+
+def finish_symbolic(res, store):
+    """after the batch: engine model on the real signature text vs the Lean model of the formula vs the real engine"""
+    if not store:
+        return
+    leans = leanrun.lean_values([h['o'] for h in store])
+    for h, lv in zip(store, leans):
+        o = h['o']
+        res.tally('symbolic_formula_observed')
+        what = h.get('what', 'utility_expression_one_alternative')
+        leanrun.compare(res, o, lv, what, h['sub'], rel=1e-9, abs_=1e-12, where=h['where'])
+        if lv is None or isinstance(lv, tuple) or h.get('sym') is None:
+            continue
+        v = lv[0]
+        if isinstance(v, tuple):
+            continue
+        if 'what' in h:
+            res.tally('baseline_formula_vs_problem')
+            if not close(v, h['sym'], 1e-12, 1e-13):
+                res.diverge(f'{what} of the model object (formula run by the engine model) vs the value the abstract problem defines', h['sub'], h['sym'], v, where=h['where'])
+            continue
+        res.tally('symbolic_formula_vs_model')
+        if not close(v, h['sym'], 1e-9, 1e-12):
+            res.diverge('the formula built by utility_expression_one_alternative (run by the engine model) vs Mdcev.symbolicU', h['sub'], h['sym'], v, where=h['where'])
+
+
+# ----------------------------------------------------------------------------- parameters after estimation
+
+
+def param_slots(expr):
+    """the parameter slots (name, value) of a real expression, sorted by name"""
+    from biogeme.expressions import TypeOfElementaryExpression
+
+    d = expr.dict_of_elementary_expression(TypeOfElementaryExpression.BETA)
+    return sorted((str(n), float(b.initValue)) for n, b in d.items())
+
+
+def build_estimated(prob, labels, start):
+    """the model of `prob` whose parameters START at other values (`start`: name -> value); prices are parameters
+    here (so that the variant's own expressions carry estimated values too)"""
+    from biogeme.expressions import Beta, Numeric, Variable
+    from biogeme.mdcev import GammaProfile, Translated, Generalized, NonMonotonic
+
+    n = prob['n']
+    x, z = Variable('x'), Variable('z')
+    B = lambda name, lb=None: Beta(name, start[name], lb, None, 0)
+    base = {labels[j]: B(f'c_{j}') + B(f'b_{j}') * x for j in range(n)}
+    gam = {labels[j]: (None if prob['outside'] == j else B(f'g_{j}', 0.001)) for j in range(n)}
+    alp = {labels[j]: B(f'a_{j}') for j in range(n)}
+    scale = None if prob['scale'] is None else B('scale')
+    v = prob['variant']
+    prices = None if prob['prices'] is None else {labels[j]: B(f'p_{j}') for j in range(n)}
+    if v == 'translated':
+        return Translated('m', base, gam, alp, scale)
+    if v == 'gamma_profile':
+        return GammaProfile('m', base, gam, alp, scale, prices)
+    if v == 'generalized':
+        return Generalized('m', base, gam, alp, scale, prices)
+    mu = {labels[j]: B(f'm_{j}') + Numeric(0.125) * z for j in range(n)}
+    return NonMonotonic('m', base, gam, mu, alp, scale)
+
+
+def true_betas(prob):
+    n = prob['n']
+    t = {}
+    for j in range(n):
+        t[f'c_{j}'] = prob['psi_c'][j]
+        t[f'b_{j}'] = prob['psi_b'][j]
+        if prob['outside'] != j:
+            t[f'g_{j}'] = prob['gamma'][j]
+        t[f'a_{j}'] = prob['alpha'][j]
+        if prob['prices'] is not None:
+            t[f'p_{j}'] = prob['prices'][j]
+        if prob['variant'] == 'non_monotonic':
+            t[f'm_{j}'] = prob['mu_c'][j]
+    if prob['scale'] is not None:
+        t['scale'] = prob['scale']
+    return t
+
+
+def check_estimated(ctx, res, prob, labels, lname, used_before):
+    """parameter values that arrive through `estimation_results` (the setter runs
+    _update_parameters_in_expressions): a model whose parameters START elsewhere must, once the results are set,
+    forecast exactly like a model built with those values, its numeric and symbolic utilities must agree
+    (validation) and every expression a forecast reads must carry the estimated values (Lean: updateModel).
+    `used_before`: the object has already forecast the same rows with its starting values."""
+    import pandas as pd
+    from biogeme.database import Database
+    from biogeme.results import bioResults
+
+    class Estimated(bioResults):
+        def __init__(self, betas):
+            self._betas = dict(betas)
+
+        def get_beta_values(self, my_betas=None):
+            return dict(self._betas) if my_betas is None else {b: self._betas[b] for b in my_betas}
+
+    truth = true_betas(prob)
+    start = {}
+    for name, val in truth.items():
+        if name.startswith('a_'):
+            start[name] = 0.5 if val != 0.5 else 0.25
+        elif name.startswith(('g_', 'p_')) or name == 'scale':
+            start[name] = 1.0 if val != 1.0 else 2.0
+        else:
+            start[name] = 0.0 if val != 0.0 else 0.5
+    sub = {'problem': prob, 'labels': labels, 'labeling': lname, 'estimated': True, 'used_before': used_before}
+    WE = make_where(False, {'problem': prob, 'labels': labels})
+    res.count({'estimated': prob['variant'], 'labels': labels, 'used_before': used_before, 'truth': truth}, nontrivial=True)
+    res.tally(f'estimated:used_before={used_before}')
+    with core.scratch():
+        model, err = safe(build_estimated, prob, labels, start)
+        fresh, err2 = safe(build_estimated, prob, labels, truth)
+        if model is None or fresh is None:
+            res.violate(f'the model cannot be built: {err or err2}', sub, err or err2, 'a model', where='Mdcev.__init__')
+            return
+        db = Database('estimation', pd.DataFrame(prob['rows']))
+        eps = [np.array([eps_vector(model, labels, ea) for ea in prob['eps'][r]]) for r in range(len(prob['rows']))]
+        row_objs = [Database(f'row_{r}', pd.DataFrame([prob['rows'][r]])) for r in range(len(prob['rows']))]
+        if used_before:
+            safe(model.forecast, db, prob['budget'], eps, False, 1e-13, 1e-13)
+        if used_before == 'same_row':
+            # the one-row entry points on row objects that are used again after the estimation
+            for r, ro in enumerate(row_objs):
+                safe(model.forecast_bisection_one_draw, ro, prob['budget'], eps[r][0].copy())
+            safe(model.validation, row_objs[0])
+        before = lean_params(prob, model)
+        _, serr = safe(setattr, model, 'estimation_results', Estimated(truth))
+        if serr is not None:
+            res.violate(f'setting estimation_results raises: {serr}', sub, serr, 'parameters updated', where='Mdcev.estimation_results')
+            return
+        after = lean_params(prob, model)
+        req = {'op': 'update', 'variant': prob['variant'], 'scale': None, 'betas': [[k, f2b(v)] for k, v in truth.items()], **before}
+
+        def cb(ans, sub=sub, after=after):
+            got = [[(n, b2f(b)) for n, b in e] for e in ans['exprs']]
+            want = forecast_exprs_of(after)
+            if got != want:
+                res.diverge('_update_parameters_in_expressions vs Mdcev.updateModel (expressions read by a forecast)', sub, got, want, where='')
+
+        ctx.batch.add(req, cb)
+        # oracle 1: every parameter of every expression a forecast reads carries the estimated value
+        for e in forecast_exprs_of(after):
+            for name, val in e:
+                if name in truth and val != truth[name]:
+                    res.violate(f'after estimation the parameter {name} of an expression of the model still has the value {val}', sub, val, truth[name],
+                                where='Mdcev._update_parameters_in_expressions')
+        # oracle 2: forecasts = forecasts of a model built with the estimated values
+        out, e1 = safe(model.forecast, db, prob['budget'], eps, False, 1e-13, 1e-13)
+        ref, e2 = safe(fresh.forecast, Database('reference', pd.DataFrame(prob['rows'])), prob['budget'], eps, False, 1e-13, 1e-13)
+        if (out is None) != (ref is None):
+            res.violate(f'forecast after estimation: {e1}; model built with the estimated values: {e2}', sub, e1, e2, where=WE('Mdcev.forecast (after estimation)'))
+            return
+        if out is None:
+            return
+        for r, (df, dfr) in enumerate(zip(out, ref)):
+            a = {k: [float(v) for v in df[k]] for k in sorted(labels)}
+            b = {k: [float(v) for v in dfr[k]] for k in sorted(labels)}
+            if any(not close(u, v, 1e-9, 1e-12) for k in a for u, v in zip(a[k], b[k])):
+                res.violate('forecast after estimation differs from the forecast of a model built with the estimated values', {**sub, 'row': r}, a, b,
+                            where=WE('Mdcev.forecast (after estimation)'))
+            # oracle 3: KKT with the marginal utilities of the symbolic utility of a model built with the values
+            row = Database(f'row_{r}', pd.DataFrame([prob['rows'][r]]))
+            x_by_label = {k: float(df[k].iloc[0]) for k in labels}
+            why, oerr = safe(oracle_symbolic, fresh, row, prob, labels, eps[r][0], x_by_label)
+            if oerr is None and why:
+                res.violate(f'forecast after estimation: {why}', {**sub, 'row': r}, x_by_label, 'KKT point (symbolic marginal utilities)', where=WE('Mdcev.forecast (after estimation)'))
+        val, verr = validation_of(model, Database('row_0', pd.DataFrame([prob['rows'][0]])), prob)
+        if val is None or val:
+            res.violate(f'Mdcev.validation after estimation: {val if val is not None else verr}', sub, val if val is not None else verr, [],
+                        where='Mdcev.validation (after estimation)')
+        if used_before == 'same_row':
+            # the row objects seen BEFORE the estimation: same forecasts as a model built with the estimated values
+            for r, ro in enumerate(row_objs):
+                one, oerr = safe(model.forecast_bisection_one_draw, ro, prob['budget'], eps[r][0].copy())
+                want, werr = safe(fresh.forecast_bisection_one_draw, Database(f'row_{r}', pd.DataFrame([prob['rows'][r]])), prob['budget'], eps[r][0].copy())
+                if (one is None) != (want is None) or (one is not None and any(not close(float(one[k]), float(want[k]), 1e-9, 1e-12) for k in labels)):
+                    res.violate('forecast of a row object already used before the estimation differs from the forecast of a model built with the estimated values',
+                                {**sub, 'row': r}, oerr if one is None else {int(k): float(v) for k, v in one.items()},
+                                werr if want is None else {int(k): float(v) for k, v in want.items()}, where=F_C18_4_WHERE)
+            val, verr = validation_of(model, row_objs[0], prob)
+            if val is None or val:
+                res.violate(f'Mdcev.validation on a row object already used before the estimation: {(val if val is not None else verr)!s:.300}', sub,
+                            val if val is not None else verr, [], where=F_C18_4_WHERE)
+
+
+def lean_params(prob, model):
+    """the expressions of a real model object as parameter slots (request fields of the driver op `update`)"""
+    J = lambda e: [[n, f2b(v)] for n, v in param_slots(e)]
+    order = list(model.index_to_key)
+    out = {
+        'baseline': [[k, J(model.baseline_utilities[k])] for k in order],
+        'gamma': [[k, None if model.gamma_parameters[k] is None else J(model.gamma_parameters[k])] for k in order],
+        'alpha': None if not model.alpha_parameters else [[k, J(model.alpha_parameters[k])] for k in order],
+        'scale_expr': None if model.scale_parameter is None else J(model.scale_parameter),
+        'weights': None if model.weights is None else J(model.weights),
+        'mu': [[k, J(model.mu_utilities[k])] for k in order] if hasattr(model, 'mu_utilities') else [],
+        'prices': None if getattr(model, 'prices', None) is None else [[k, J(model.prices[k])] for k in order],
+    }
+    return out
+
+
+def forecast_exprs_of(params):
+    """the same list as Mdcev.forecastExprs, read from the real object's slots"""
+    D = lambda e: [(n, b2f(b)) for n, b in e]
+    out = [D(e) for _, e in params['baseline']]
+    out += [D(e) for _, e in params['gamma'] if e is not None]
+    out += [] if params['alpha'] is None else [D(e) for _, e in params['alpha']]
+    out += [] if params['scale_expr'] is None else [D(params['scale_expr'])]
+    out += [D(e) for _, e in params['mu']]
+    out += [] if params['prices'] is None else [D(e) for _, e in params['prices']]
+    return out
 
 
 # ----------------------------------------------------------------------------- corpus / check / search / replay
@@ -674,6 +1093,15 @@ KNOWN_F_C18_2 = {
 }
 KNOWN_F_C18_2_LABELS = {'seq': [1, 2], 'sparse': [4, 18]}
 
+# input of known finding F-C18-3: the solution is the first midpoint (all quantities dyadic), the total there is 9e-15
+# from the budget: the loop stops on the budget criterion after it has moved the upper bound
+KNOWN_F_C18_3 = {
+    'variant': 'non_monotonic', 'n': 3, 'outside': None, 'psi_c': [-1.0, -2.0, -1.5], 'psi_b': [0.0, 0.125, -0.125], 'gamma': [1.0, 2.0, 0.5],
+    'alpha': [0.5, 0.3, 0.6], 'prices': None, 'mu_c': [-4.0, -5.0, -4.5], 'scale': 2.0, 'rows': [{'x': 0.5, 'z': 1.0}], 'budget': 3.0,
+    'eps': [[[0.25, 1.5, -0.5]]], 'regime': 'low_marginal',
+}
+KNOWN_F_C18_3_LABELS = {'seq': [1, 2, 3], 'sparse': [16, 0, 9]}
+
 CORPUS = [
     # translated, outside good, sparse labels {7, 3, 12}
     ({'variant': 'translated', 'n': 3, 'outside': 0, 'psi_c': [0.5, -0.25, 0.125], 'psi_b': [0.25, 0.0, -0.125], 'gamma': [1.0, 2.0, 0.5], 'alpha': [0.5, 0.25, 0.75],
@@ -684,10 +1112,21 @@ CORPUS = [
       'alpha': [0.5, 0.3, 0.6, 0.25], 'prices': None, 'mu_c': [-0.5, -0.25, 0.0, -1.0], 'scale': None, 'rows': [{'x': -0.5, 'z': 1.0}], 'budget': 1.0,
       'eps': [[[0.1, 2.0, -0.7, 0.4]]]},
      {'seq': [1, 2, 3, 4], 'sparse': [9, 33, 2, 16]}),
+    # non monotonic without outside good, the marginal utility at zero of EVERY good is negative (negative
+    # multiplier): the budget still has to be spent
+    ({'variant': 'non_monotonic', 'n': 3, 'outside': None, 'psi_c': [-1.0, -2.0, -1.5], 'psi_b': [0.0, 0.125, -0.125], 'gamma': [1.0, 2.0, 0.5],
+      'alpha': [0.45, 0.3, 0.6], 'prices': None, 'mu_c': [-4.0, -5.0, -4.5], 'scale': 2.0, 'rows': [{'x': 0.5, 'z': 1.0}], 'budget': 2.7,
+      'eps': [[[0.25, 1.5, -0.5]]], 'regime': 'low_marginal'},
+     {'seq': [1, 2, 3], 'sparse': [16, 0, 9]}),
+    # generalized with prices, large budget: the full choice set is chosen
+    ({'variant': 'generalized', 'n': 3, 'outside': 1, 'psi_c': [0.5, 0.0, -0.5], 'psi_b': [0.125, 0.0, 0.25], 'gamma': [1.0, 1.0, 2.0],
+      'alpha': [0.5, 0.25, 0.75], 'prices': [1.25, 2.0, 0.5], 'mu_c': [0.0, 0.0, 0.0], 'scale': None, 'rows': [{'x': 1.0, 'z': 0.0}], 'budget': 4096.0,
+      'eps': [[[0.5, -0.25, 1.0]]], 'regime': 'large_budget'},
+     {'seq': [1, 2, 3], 'sparse': [24, 8, 3]}),
 ]
 
 
-def check_constructor(res, rng, fault=None, labels=None):
+def check_constructor(res, rng, fault=None, labels=None, batch=None):
     """the constructor refuses inconsistent dictionaries (labels of gamma / alpha differ from the
     baseline utilities, several outside goods)"""
     from biogeme.expressions import Beta
@@ -695,7 +1134,9 @@ def check_constructor(res, rng, fault=None, labels=None):
 
     if labels is None:
         labels = rng.sample(range(0, 30), rng.randint(2, 5))
-        fault = rng.choice(['none', 'gamma_missing', 'gamma_extra', 'alpha_missing', 'two_outside', 'one_outside'])
+        fault = rng.choice(['none', 'gamma_missing', 'gamma_extra', 'alpha_missing', 'two_outside', 'one_outside', 'one_outside'])
+        if fault == 'one_outside' and 0 not in labels and rng.random() < 0.5:
+            labels[-1] = 0  # the outside good carries the label 0 (a falsy key)
     base = {k: Beta(f'c{k}', 0.0, None, None, 0) for k in labels}
     gam = {k: Beta(f'g{k}', 1.0, None, None, 0) for k in labels}
     alp = {k: Beta(f'a{k}', 0.5, None, None, 0) for k in labels}
@@ -718,11 +1159,26 @@ def check_constructor(res, rng, fault=None, labels=None):
     if outcome != want:
         res.violate(f'Mdcev constructor: inconsistent dictionaries ({fault}) are not handled as documented',
                     {'constructor': fault, 'labels': labels}, outcome, want, where='Mdcev.__init__')
+    if got is not None:
+        # the report on the outside good must say what the dictionaries say
+        rep, rerr = safe(got.info_gamma_parameters)
+        n_none = sum(1 for v in gam.values() if v is None)
+        want_rep = {0: 'No outside good', 1: 'One outside good'}.get(n_none, 'Several outside goods')
+        res.tally('info_gamma_parameters')
+        if rep is None or not str(rep).startswith(want_rep) or (got.outside_good_key is None) != (n_none == 0):
+            res.violate('info_gamma_parameters / outside_good_key do not report the outside good of the dictionaries',
+                        {'constructor': fault, 'labels': labels}, {'report': rep if rep is not None else rerr, 'outside_good_key': got.outside_good_key},
+                        {'report': want_rep, 'outside good': n_none}, where='Mdcev.info_gamma_parameters')
+        if batch is not None:
+            batch.add({'op': 'gamma_report', 'variant': 'translated', 'scale': None, 'gammas': [None if v is None else f2b(1.0) for v in gam.values()]},
+                      lambda ans, rep=rep, n_none=n_none: None if ans['report'] == min(n_none, 2) and str(rep).startswith(
+                          {0: 'No outside good', 1: 'One outside good', 2: 'Several outside goods'}[ans['report']])
+                      else res.diverge('info_gamma_parameters vs Mdcev.gammaReport', {'constructor': fault, 'labels': labels}, ans['report'], str(rep), where=''))
 
 
 def main_labelings(rng, prob):
     """labelings of the main stream: the shape of F-C18-1 is excluded by construction"""
-    labs = labelings(rng, prob['n'])
+    labs = labelings(rng, prob['n'], prob['outside'])
     out = {}
     for name, labels in labs.items():
         og = None if prob['outside'] is None else labels[prob['outside']]
@@ -736,33 +1192,42 @@ def check(ctx) -> Result:
     res = Result(rule=RULE, tolerance='budget 1e-8 (relative to max(1,B)); marginal utilities 1e-6 relative; objective vs brute force 1e-6 relative + multiplier x '
                  'brute-force budget violation; model vs code: pieces 1e-10, forecasts 1e-7, bounds 1e-9; relabelling 1e-7')
     rng = ctx.rng
+    ctx.sym_store = []
     for prob, labs in CORPUS:
         check_problem(ctx, res, prob, labs)
         check_scenarios(ctx, res, prob, labs['sparse'], 'sparse')
+        check_estimated(ctx, res, prob, labs['sparse'], 'sparse', used_before=False)
         res.tally('corpus')
+    check_estimated(ctx, res, CORPUS[0][0], CORPUS[0][1]['sparse'], 'sparse', used_before='same_row')
     # the listed known findings: their own inputs first
     check_problem(ctx, res, KNOWN_F_C18_1, KNOWN_F_C18_1_LABELS, pieces=False)
     check_problem(ctx, res, KNOWN_F_C18_2, KNOWN_F_C18_2_LABELS, pieces=False, comparison=True)
+    check_problem(ctx, res, KNOWN_F_C18_3, KNOWN_F_C18_3_LABELS, pieces=False)
     for _ in range(ctx.n(4, 40)):
         prob = gen_problem(rng, variant='gamma_profile')
         if prob['outside'] is None:
             prob['outside'] = rng.randrange(prob['n'])
-        labs = labelings(rng, prob['n'])
+        labs = labelings(rng, prob['n'], prob['outside'])
         check_problem(ctx, res, prob, labs, brute=False, pieces=False)
         res.tally('known_shape_stream')
     n_cmp = ctx.n(12, 100)
-    for i in range(ctx.n(160, 2400)):
+    for i in range(ctx.n(115, 1100)):
         prob = gen_problem(rng, variant=VARIANTS[i % 4])
         labs = main_labelings(rng, prob)
+        res.tally(f'regime={prob["regime"]}')
         check_problem(ctx, res, prob, labs, brute=(i % 2 == 0), pieces=(i % 3 == 0), comparison=(i < n_cmp))
         if i % (5 if ctx.quick else 3) == 1 and labs:
             ln = sorted(labs)[i % len(labs)]
             check_scenarios(ctx, res, prob, labs[ln], ln)
-        if sum(1 for v in res.violations if v.get('where') not in (F_C18_1_WHERE, F_C18_2_WHERE)) > 5:
+        if i % (6 if ctx.quick else 4) == 2 and labs:
+            ln = sorted(labs)[(i // 2) % len(labs)]
+            check_estimated(ctx, res, prob, labs[ln], ln, used_before=[False, 'table', 'same_row'][(i // 6) % 3])
+        if sum(1 for v in res.violations if v.get('where') not in (F_C18_1_WHERE, F_C18_2_WHERE, F_C18_3_WHERE, F_C18_4_WHERE)) > 5:
             break
     for _ in range(ctx.n(30, 300)):
-        check_constructor(res, rng)
+        check_constructor(res, rng, batch=ctx.batch)
     ctx.batch.flush()
+    finish_symbolic(res, ctx.sym_store)
     return res
 
 
@@ -793,6 +1258,7 @@ def search(ctx, res, broken):
             if labs:
                 ln = sorted(labs)[0]
                 check_scenarios(shim, r2, prob, labs[ln], ln)
+                check_estimated(shim, r2, prob, labs[ln], ln, used_before=[False, 'table'][i % 2])
         except Exception as e:  # noqa: BLE001
             res.notes.append(f'search: {type(e).__name__}: {e}')
             continue
@@ -818,6 +1284,14 @@ def replay(ctx, obj):
         labs = {'other': sub['other_labels'], **labs}
     r = Result()
     shim = _Shim(core.rng_for('C18-replay', 0))
+    if sub.get('estimated'):
+        check_estimated(shim, r, prob, sub['labels'], sub.get('labeling', 'given'), used_before=sub.get('used_before'))
+        out.update({'property_fails': bool(r.violations), 'violations': [{'what': v['what'], 'observed': v['observed'], 'expected': v['expected']} for v in r.violations[:3]]})
+        return out
+    if sub.get('validate_forecast'):
+        check_problem(shim, r, prob, labs, brute=False, pieces=False, comparison=True)
+        out.update({'property_fails': bool(r.violations), 'violations': [{'what': v['what'], 'observed': v['observed'], 'expected': v['expected']} for v in r.violations[:3]]})
+        return out
     if sub.get('scenario'):
         check_scenarios(shim, r, prob, sub['labels'], sub.get('labeling', 'given'))
         out.update({'property_fails': bool(r.violations), 'violations': [{'what': v['what'], 'observed': v['observed'], 'expected': v['expected']} for v in r.violations[:3]]})
